@@ -9,6 +9,7 @@ def run(tier, seed, replay):
         PID, tier, seed, replay, "Rewards_Trace",
         COMMON + ["-n", "30", "-blocks", "40"],
         COMMON + ["-n", "250", "-blocks", "60"],
-        "Rewards.tla: Part(r) = R*contributed power/total, commission = rate*Part credited to the reporter once, the rest divided by the stake snapshot recorded with the report; everything computed as exact rationals floored at 10^-24 loya. Around every end-block of recorded histories the inputs of the split (closing rounds, reports, powers, commission rates, stake snapshots, tips, reward-pool balance) and the selectors' 18-decimal credit records before/after are logged; TLC recomputes the split: credits non-negative, sum = reward, every selector's delta = expected share (+ commission for the reporter), time-based reward empties the pool and is paid only when a cycle-list or deposit round closes.",
+        "RewardSM_MC: the life of a tip (2% burn, waiting with the query, payout split by power / commission / recorded stake with the floors of the fixed-point code, whole-coin withdrawals) as a state machine over the Rewards.tla definitions, every assignment of powers, rates and stakes within small bounds: the credits of a payout sum to the reward to within one credit unit per credit and never exceed it, the pool covers the credits, nothing is lost. Rewards.tla: Part(r) = R*contributed power/total, commission = rate*Part credited to the reporter once, the rest divided by the stake snapshot recorded with the report; everything computed as exact rationals floored at 10^-24 loya. Around every end-block of recorded histories the inputs of the split (closing rounds, reports, powers, commission rates, stake snapshots, tips, reward-pool balance) and the selectors' 18-decimal credit records before/after are logged; TLC recomputes the split: credits non-negative, sum = reward, every selector's delta = expected share (+ commission for the reporter), time-based reward empties the pool and is paid only when a cycle-list or deposit round closes.",
         ["tolerance: 10^-18 loya per credit entry plus 10^-15 of the reward (the implementation rounds power/total to 18 decimals before multiplying by the reward)",
-         "commission rates outside [0,1] are open finding F-12 (Dev_F12); a reporter appearing with different powers in two aggregates of one payout (candidate F-08) has not been reached by the drivers"])
+         "commission rates outside [0,1] are open finding F-12 (Dev_F12); a reporter appearing with different powers in two aggregates of one payout (candidate F-08) has not been reached by the drivers"],
+        mc=[("RewardSM_MC", "RewardSM_MC.cfg", "RewardSM_MC_thorough.cfg", 8)])
